@@ -1006,6 +1006,36 @@ def extract_copy_change_attrs_body(repo):
             if not (isinstance(n, ast.Expr) and isinstance(getattr(n, 'value', None), ast.Constant))]
 
 
+def extract_prepare_sql_flags(repo):
+    """SQLExecutor._prepare_sql: every assignment to `use_transaction` / `new_transaction` in source order, each with
+    the isinstance test it sits under (if any) and whether it follows the `yield` of its block - the flags that
+    `_prepare_transaction_batches` cuts the statement stream by"""
+    tree = ast.parse(_src(repo, 'django_evolution/utils/sql.py'))
+    cls = _find_class(tree, 'SQLExecutor')
+    fn = _find_func(cls, '_prepare_sql')
+    out = []
+
+    def walk(stmts, test):
+        seen_yield = False
+        for n in stmts:
+            if isinstance(n, ast.Expr) and isinstance(n.value, ast.Yield):
+                seen_yield = True
+            if isinstance(n, ast.Assign) and len(n.targets) == 1 and \
+                    ast.unparse(n.targets[0]) in ('use_transaction', 'new_transaction'):
+                out.append('%s%s%s' % (('[%s] ' % test) if test else '', ast.unparse(n), ' (after yield)' if seen_yield else ''))
+            elif isinstance(n, ast.Assign) and any(v in ast.unparse(n.targets[0]) for v in ('use_transaction', 'new_transaction')):
+                out.append('? ' + ast.unparse(n))
+            if isinstance(n, ast.If):
+                t = ast.unparse(n.test)
+                walk(n.body, t if 'isinstance(statements' in t else test)
+                walk(n.orelse, ('not ' + t) if 'isinstance(statements' in t and not (len(n.orelse) == 1 and isinstance(n.orelse[0], ast.If)) else test)
+            elif isinstance(n, (ast.For, ast.While, ast.With, ast.Try)):
+                walk(n.body, test)
+                walk(getattr(n, 'orelse', []), test)
+    walk(fn.body, None)
+    return out
+
+
 def extract_found_reset_per_label(repo):
     """get_app_mutations: the flag that says "an SQL file was found for this label" is set to False INSIDE the loop
     over the labels (once per label), so that a label without an SQL file falls back to its Python module whatever
@@ -1289,6 +1319,10 @@ def regenerate(repo, outdir):
     flags['found_reset_per_label'] = frl
     parts.append('/-- get_app_mutations forgets, for every label, whether an earlier label was shipped as an SQL file -/')
     parts.append('def foundResetPerLabel : Bool := ' + ('true' if frl else 'false'))
+    psf = extract_prepare_sql_flags(repo)
+    flags['prepare_sql_flags'] = psf
+    parts.append('/-- SQLExecutor._prepare_sql: the assignments to use_transaction / new_transaction -/')
+    parts.append('def prepareSqlFlags : List String := ' + lean_list(lean_str(x) for x in psf))
     cca = extract_copy_change_attrs_body(repo)
     flags['copy_change_attrs_body'] = cca
     parts.append('/-- AppMutator._copy_change_attrs, statement by statement -/')
